@@ -11,7 +11,7 @@ from penman.tree import Tree
 from pv.gen import graphs, models, trees
 from pv.gen.base import fy
 from pv.harness import Enum, Fuzz, Hyp
-from pv.props.common import fmt, short, tree_classes
+from pv.props.common import fmt, noise_calls, short, tree_classes
 from pv.ref import graphm, interp
 from pv.ref.role import build_model
 
@@ -75,6 +75,7 @@ def check(case):
             return []
     m = build_model(spec)
     g, label = _graph_of(case, m)
+    noise_calls(m, graph=g, roles=[t[1] for t in g.triples])
     return _check_graph(g, spec, m, label)
 
 
